@@ -8,6 +8,7 @@ mod trace_macro;
 trace_mod!(trace, VKey, VVal, LruCache<VKey, VVal, BH>, |max: usize, cap: usize, hk: u8| if cap == 0 && hk % 2 == 0 { LruCache::with_hasher(max, BH(hk)) } else { LruCache::with_capacity_and_hasher(max, cap, BH(hk)) }, "dd");
 trace_mod!(trace_pd, PKey, VVal, LruCache<PKey, VVal, BH>, |max: usize, cap: usize, hk: u8| LruCache::with_capacity_and_hasher(max, cap, BH(hk)), "pd");
 trace_mod!(trace_dp, VKey, PVal, LruCache<VKey, PVal, BH>, |max: usize, cap: usize, hk: u8| LruCache::with_capacity_and_hasher(max, cap, BH(hk)), "dp");
+trace_mod!(trace_dn, VKey, NVal, LruCache<VKey, NVal, BH>, |max: usize, cap: usize, hk: u8| LruCache::with_capacity_and_hasher(max, cap, BH(hk)), "dn");
 trace_mod!(trace_df, VKey, VVal, LruCache<VKey, VVal>, |max: usize, cap: usize, _hk: u8| if cap == 0 { LruCache::new(max) } else { LruCache::with_capacity(max, cap) }, "df");
 
 use lru_mem::{HeapSize, LruCache};
@@ -194,6 +195,57 @@ impl Clone for PVal {
         let t = fresh_clone_tok(false);
         CLONE_LOG.with(|d| d.borrow_mut().push((self.tok, t)));
         PVal { tok: t, tag: self.tag, heap: self.heap }
+    }
+}
+
+
+impl VVal {
+    pub fn mk(tok: u64, tag: u64, heap: usize) -> VVal { VVal { tok, tag, heap } }
+    pub fn tok(&self) -> u64 { self.tok }
+    pub fn tag(&self) -> u64 { self.tag }
+    pub fn heapv(&self) -> usize { self.heap }
+    pub fn set(&mut self, tag: u64, heap: usize) { self.tag = tag; self.heap = heap; }
+}
+
+impl PVal {
+    pub fn mk(tok: u64, tag: u64, heap: usize) -> PVal { PVal { tok, tag, heap } }
+    pub fn tok(&self) -> u64 { self.tok }
+    pub fn tag(&self) -> u64 { self.tag }
+    pub fn heapv(&self) -> usize { self.heap }
+    pub fn set(&mut self, tag: u64, heap: usize) { self.tag = tag; self.heap = heap; }
+}
+
+thread_local! {
+    /// side table of the narrow value type: (token, tag, heap) per handle
+    pub static NVALS: RefCell<Vec<(u64, u64, usize)>> = RefCell::new(Vec::new());
+}
+/// A value type narrower than a pointer (size_of::<NVal>() == 4) whose size estimate depends on its state: a handle
+/// into a side table that holds its token, tag and the heap size it reports.
+pub struct NVal(pub u32);
+impl NVal {
+    pub fn mk(tok: u64, tag: u64, heap: usize) -> NVal { NVALS.with(|t| { let mut t = t.borrow_mut(); t.push((tok, tag, heap)); NVal((t.len() - 1) as u32) }) }
+    fn row(&self) -> (u64, u64, usize) { NVALS.with(|t| t.borrow()[self.0 as usize]) }
+    pub fn tok(&self) -> u64 { self.row().0 }
+    pub fn tag(&self) -> u64 { self.row().1 }
+    pub fn heapv(&self) -> usize { self.row().2 }
+    pub fn set(&mut self, tag: u64, heap: usize) { NVALS.with(|t| { let mut t = t.borrow_mut(); let r = &mut t[self.0 as usize]; r.1 = tag; r.2 = heap; }) }
+}
+impl std::fmt::Debug for NVal {
+    fn fmt(&self, f: &mut std::fmt::Formatter<'_>) -> std::fmt::Result { write!(f, "V{}", self.tag()) }
+}
+impl HeapSize for NVal {
+    fn heap_size(&self) -> usize { SIZES.with(|h| h.set(h.get() + 1)); callback(CB_SIZE); self.heapv() }
+}
+impl Drop for NVal {
+    fn drop(&mut self) { let t = self.tok(); if t != 0 { DROPS.with(|d| d.borrow_mut().push(t)); } }
+}
+impl Clone for NVal {
+    fn clone(&self) -> NVal {
+        CLONES.with(|h| h.set(h.get() + 1));
+        callback(CB_CLONE);
+        let t = fresh_clone_tok(false);
+        CLONE_LOG.with(|d| d.borrow_mut().push((self.tok(), t)));
+        NVal::mk(t, self.tag(), self.heapv())
     }
 }
 
